@@ -296,6 +296,9 @@ pub(crate) struct Local {
     must_collect: Cell<bool>,
     collecting: Cell<bool>,
 
+    /// Set while this participant runs `Global::try_advance` on behalf of `incr_advance`.
+    advancing: Cell<bool>,
+
     /// The local epoch.
     epoch: CachePadded<AtomicEpoch>,
 }
@@ -320,6 +323,7 @@ impl Local {
                 manual_count: Cell::new(0),
                 must_collect: Cell::new(false),
                 collecting: Cell::new(false),
+                advancing: Cell::new(false),
                 epoch: CachePadded::new(AtomicEpoch::new(Epoch::starting())),
             });
             collector.global.locals.insert(local, &unprotected());
@@ -389,8 +393,12 @@ impl Local {
         let advance_count = self.advance_count.get().wrapping_add(1);
         self.advance_count.set(advance_count);
 
-        if advance_count % Self::COUNTS_BETWEEN_ADVANCE == 0 {
+        // `try_advance` defers the destruction of the participants it unlinks, which comes back
+        // here. Do not nest: the depth of the recursion would be proportional to the number of
+        // removed participants.
+        if advance_count % Self::COUNTS_BETWEEN_ADVANCE == 0 && !self.advancing.replace(true) {
             self.global().try_advance(guard);
+            self.advancing.set(false);
         }
     }
 
